@@ -128,6 +128,21 @@ Theorem C11_crash_consistent : forall (fs : fsys) (h : list (list saveop * list 
 Proof. exact crash_consistent. Qed.
 Print Assumptions C11_crash_consistent.
 
+(* The same for every writer of a state file that is read back: colvarmodule::write_restart_file
+   (W_restart), colvarbias::write_state_prefix = `cv bias <name> save` (W_bias: the stream is closed on every
+   path, errors are accumulated) and colvarbias_meta::write_replica_state_file (W_replica: no .old backup).
+   (W_bias wrote in place and ignored the close result, W_replica renamed an incomplete temporary file over
+   the complete one: two fix: commits of round 3.) *)
+Theorem C11_crash_consistent_all_writers : forall (w : writer) (fs : fsys) (h : list (list saveop * list outcome)),
+  curok fs = true ->
+  let '(fs', out) := history_w w fs h in
+  (safe fs = true \/ existsb (fun o => completed (fst o)) out = true -> safe fs' = true) /\ curok fs' = true.
+Proof.
+  intros w fs h Hc. pose proof (crash_consistent_w w fs h Hc) as H1. pose proof (current_never_partial_w w fs h Hc) as H2.
+  destruct (history_w w fs h) as [fs' out]. split; [exact H1 | exact H2].
+Qed.
+Print Assumptions C11_crash_consistent_all_writers.
+
 (* the name of the state file itself never holds an incomplete file, whatever happens *)
 Theorem C11_current_never_partial : forall (fs : fsys) (h : list (list saveop * list outcome)),
   curok fs = true -> curok (fst (history fs h)) = true.
@@ -141,7 +156,7 @@ Theorem C11_crash_consistent_one_process : forall (fs : fsys) (plan : list outco
   safe fs = true \/ completed rs = true -> safe (m_fs m') = true.
 Proof.
   intros fs plan l Hc _. destruct (session (start fs plan) l) as [m' rs] eqn:E.
-  exact (proj2 (session_any l (start fs plan) (or_introl eq_refl) Hc m' rs E)).
+  exact (proj2 (session_any W_restart l (start fs plan) (or_introl eq_refl) Hc m' rs E)).
 Qed.
 Print Assumptions C11_crash_consistent_one_process.
 
@@ -153,7 +168,7 @@ Theorem C11_error_tolerant : forall (fs : fsys) (plan : list outcome) (l : list 
   safe fs = true \/ completed rs = true -> safe (m_fs m') = true.
 Proof.
   intros fs plan l Hc. destruct (session (start fs plan) l) as [m' rs] eqn:E.
-  exact (proj2 (session_any l (start fs plan) (or_introl eq_refl) Hc m' rs E)).
+  exact (proj2 (session_any W_restart l (start fs plan) (or_introl eq_refl) Hc m' rs E)).
 Qed.
 Print Assumptions C11_error_tolerant.
 
@@ -208,6 +223,35 @@ Theorem C11_cut_in_block_is_error_concrete : forall (colvars : list N) (biases :
   load_c colvars biases l0 = true.
 Proof. exact cut_in_block_is_error_c. Qed.
 Print Assumptions C11_cut_in_block_is_error_concrete.
+
+(* Whole text states, concrete readers: the global block, any number of complete objects (valid_obj: an object
+   that the configured objects read completely whatever follows; proved below for the blocks Colvars writes),
+   then an object whose block is never closed: the load reports an error.  So a text state cut ANYWHERE strictly
+   inside the block of any object that a configured object claims is an error -- the premise "the reader
+   arrives there" of C11_cut_in_block_is_error is discharged. *)
+Theorem C11_text_state_cut_is_error : forall (colvars : list N) (biases : list bias) (gc : list tok) (objs : list (list tok)) (kw : N) (b : list tok),
+  bal 0 gc = true -> Forall (valid_obj colvars biases) objs ->
+  unclosed 1 b = true -> claimed colvars biases kw b ->
+  load_c colvars biases (TW KW_configuration :: TO :: gc ++ TC :: concat objs ++ TW kw :: TO :: b) = true.
+Proof. exact text_state_cut_is_error. Qed.
+Print Assumptions C11_text_state_cut_is_error.
+
+(* the block of a configured variable, as written (name, x, ... : any brace-balanced contents naming it) *)
+Theorem C11_text_variable_block_valid : forall (colvars : list N) (biases : list bias) (n : N) (conf : list tok),
+  In n colvars -> bal 0 conf = true -> lookup KW_name 0 conf = Some (TW n) -> cv_ok_c n conf = true ->
+  valid_obj colvars biases (TW KW_colvar :: TO :: conf ++ [TC]).
+Proof. exact cv_block_valid. Qed.
+Print Assumptions C11_text_variable_block_valid.
+
+(* the block of a configured bias, as written: configuration sub-block naming it, then its data: keys, arrays
+   of numbers and grid_parameters blocks in the order of its layout, then (kind 1) any number of hills *)
+Theorem C11_text_bias_block_valid : forall (colvars : list N) (biases : list bias) (b : bias) (kw : N) (conf data : list tok),
+  In b biases -> kw <> KW_colvar -> claims b (TW kw) = true ->
+  (forall b', In b' biases -> claims b' (TW kw) = true -> b_name b' = b_name b -> b' = b) ->
+  bal 0 conf = true -> lookup KW_name 0 conf = Some (TW (b_name b)) -> data_match b data ->
+  valid_obj colvars biases (TW kw :: TO :: TW KW_configuration :: TO :: conf ++ TC :: data ++ [TC]).
+Proof. exact bias_block_valid. Qed.
+Print Assumptions C11_text_bias_block_valid.
 
 (* ===================== (d) the binary state readers above the stream ===================== *)
 
@@ -264,6 +308,27 @@ Theorem C11_binary_hill_boundary_accepted :
               (rst (b1 ++ enc_header kwd conf ++ enc_hills (firstn k hs)) mx false false false (blen b1) o) = BOk s false.
 Proof. exact bias_hill_boundary. Qed.
 Print Assumptions C11_binary_hill_boundary_accepted.
+
+(* Whole binary states: magic number, global block, the variables' records, the bias objects without data and
+   possibly a last bias object with a list of hills (the order of the module's lists puts metadynamics last).
+   The data end anywhere after the global block and before the end of the state (p is a proper prefix of what
+   follows the global block): the load reports an error -- except when the data end exactly between two hills
+   of that last bias (C11_binary_hill_boundary_accepted: the format cannot tell).  This composes the record
+   theorems over read_objects_state(memory_stream &). *)
+Theorem C11_binary_state_cut_is_error :
+  forall (cv_ok : list byte -> bool) (matches : bbias -> list byte -> option bool) (params_ok : bbias -> list byte -> bool)
+         (gconf : list byte) (datas : list (list byte)) (xs : list bobj) (last : option bobj) (p q : list byte),
+  item_ok (IStr gconf) -> Forall (cv_data_ok cv_ok) datas ->
+  Forall (obj_ok matches params_ok) xs -> Forall plain xs ->
+  match last with Some x => obj_ok matches params_ok x /\ bb_kind (o_b x) = 1%nat | None => True end ->
+  concat (map cv_enc datas) ++ concat (map benc xs) ++ match last with Some x => benc x | None => [] end = p ++ q ->
+  q <> [] -> blen (magic ++ genc gconf ++ p) < W64 ->
+  (forall x k, last = Some x ->
+     p <> concat (map cv_enc datas) ++ concat (map benc xs) ++ enc_header (o_kwd x) (o_conf x) ++ enc_hills (firstn k (o_hs x))) ->
+  load_bin cv_ok matches params_ok (length datas)
+           (map o_b xs ++ match last with Some x => [o_b x] | None => [] end) (magic ++ genc gconf ++ p) = true.
+Proof. exact binary_state_cut. Qed.
+Print Assumptions C11_binary_state_cut_is_error.
 
 (* non-vacuity *)
 Example C11_example_roundtrip :
@@ -378,3 +443,11 @@ Proof.
   - vm_compute. eexists. reflexivity.
   - vm_compute. reflexivity.
 Qed.
+
+(* the bias-state writer closes its stream after a failed write and reports the error; the next save works *)
+Example C11_example_bias_writer :
+  let '(m, rs) := session_w W_bias (start empty_fs [OOk; OOk; OOk; OOk; OOk; OOk; OOk;   OOk; OOk; OOk; OErr])
+                            [mkS 1 [50] 50; mkS 2 [50] 50; mkS 3 [50] 50] in
+  rs = [Done true; Done false; Done true] /\ m_reg m = NotOpen /\
+  m_fs m = mkFS (Some (mkF 3 100 100)) (Some (mkF 1 100 100)) None.
+Proof. vm_compute. repeat split; reflexivity. Qed.
